@@ -35,8 +35,13 @@ var BiscuitLexerRules = []lexer.SimpleRule{
 	{Name: "Punct", Pattern: `[-[!@%^&#$*()+_={}\|:;"'<,>.?/]|]`},
 }
 
+var biscuitLexer = lexer.MustSimple(BiscuitLexerRules)
+
+// hexTokenType is the lexer symbol of byte array literals (hex:...)
+var hexTokenType = biscuitLexer.Symbols()["Hex"]
+
 var DefaultParserOptions = []participle.Option{
-	participle.Lexer(lexer.MustSimple(BiscuitLexerRules)),
+	participle.Lexer(biscuitLexer),
 	participle.UseLookahead(1),
 	participle.Elide("Whitespace", "EOL"),
 	participle.Unquote("String"),
